@@ -74,7 +74,20 @@ VECTORS = {
     "large": ([F(0), F(0), F(0), F(BIG, 3 * BIG + 1), F(2 * BIG + 1, 3 * BIG + 2), F(1), F(1), F(1)], 2),
     "cubic": ([F(0)] * 4 + [F(2, 5), F(2, 5), F(7, 9)] + [F(2)] * 4, 3),
     "deg7": ([F(-1)] * 8 + [F(3, 2)] * 8, 7),
+    "intknots": ([F(0)] * 4 + [F(2), F(5), F(5)] + [F(9)] * 4, 3),          # integer-valued knots with non-unit spacing: also run as int / numpy.int64 knots
 }
+
+
+def _int_where_integral(kind):
+    def conv(v):
+        if isinstance(v, Fraction) and v.denominator == 1:
+            return kind(int(v))
+        return float(v)
+    return conv
+
+
+REPRESENTATIONS = [("float", float, None), ("numpy-float64", np.float64, None),
+                   ("int-knots", _int_where_integral(int), "intknots"), ("numpy-int64-knots", _int_where_integral(np.int64), "intknots")]
 
 
 def ops(U, p):
@@ -198,8 +211,20 @@ def task_exact(vname):
                 out.append(ob("%s:exact-types[%s]" % (fn, tag), fn, PROVED if ok else FAILED, "B", "concrete", 0.0,
                               "all numbers in the result are int / Fraction" if ok else "non-exact numbers in the result: %r" % (bad,),
                               None if ok else dict(kind="c16.exact", vector=vname, op=name, rational=rat)))
-                if rf is not None:
-                    ve, vf = values(re_), values(rf)
+                ve = values(re_)
+                for rname, rconv, only in REPRESENTATIONS:
+                    if only is not None and vname != only:
+                        continue
+                    try:
+                        rr = rf if rname == "float" else f(rconv, rat)
+                    except Exception as ex:
+                        rr = None
+                        if rname != "float":
+                            out.append(ob("%s:%s-agrees[%s]" % (fn, rname, tag), fn, FAILED, "B", "concrete", 0.0, "%s: %s" % (type(ex).__name__, str(ex)[:120]),
+                                          dict(kind="c16.float", vector=vname, op=name, rational=rat)))
+                    if rr is None:
+                        continue
+                    vf = values(rr)
                     dev = 0.0
                     same_len = len(ve) == len(vf)
                     if same_len:
@@ -207,9 +232,9 @@ def task_exact(vname):
                             a, b = np.ravel(np.array(a, dtype=float)), np.ravel(np.array(b, dtype=float))
                             dev = max(dev, float(np.max(np.abs(a - b) / np.maximum(1.0, np.abs(a)))))
                     okf = same_len and dev <= 1e-9
-                    out.append(ob("%s:float-agrees[%s]" % (fn, tag), fn, PROVED if okf else FAILED, "B", "concrete", 0.0,
-                                  "float run agrees with the exact run on %d sampled values (max relative deviation %.1e)" % (len(ve), dev) if same_len else
-                                  "float and exact runs give differently shaped results", None if okf else dict(kind="c16.float", vector=vname, op=name, rational=rat)))
+                    out.append(ob("%s:%s-agrees[%s]" % (fn, rname, tag), fn, PROVED if okf else FAILED, "B", "concrete", 0.0,
+                                  "%s run agrees with the exact run on %d sampled values (max relative deviation %.1e)" % (rname, len(ve), dev) if same_len else
+                                  "%s and exact runs give differently shaped results" % rname, None if okf else dict(kind="c16.float", vector=vname, op=name, rational=rat)))
             except Exception as e:
                 out.append(ob("%s:exact-types[%s]" % (fn, tag), fn, FAILED, "B", "concrete", 0.0, "%s: %s" % (type(e).__name__, str(e)[:150]),
                               dict(kind="c16.exact", vector=vname, op=name, rational=rat), {"rational": rat}))
